@@ -7,7 +7,7 @@ import hashlib
 import os
 import pickle
 
-from .ir import S
+from .ir import S, mk_cmp, mk_if, mk_cond, canon_cond
 from .cfront import AnalysisError, CACHE
 
 INF = float('inf')
@@ -266,18 +266,18 @@ class _Conv:
                    'in': 'in', 'not_in': 'notin'}
             left = self.expr(n.operand1)
             right = self.expr(n.operand2)
-            e = ('bin', ops.get(n.operator, n.operator), left, right)
+            e = mk_cmp(ops.get(n.operator, n.operator), left, right)
             casc = getattr(n, 'cascade', None)
             while casc is not None:
                 r2 = self.expr(casc.operand2)
-                e = ('bin', 'and', e, ('bin', ops.get(casc.operator, casc.operator), right, r2))
+                e = ('bin', 'and', e, mk_cmp(ops.get(casc.operator, casc.operator), right, r2))
                 right = r2
                 casc = getattr(casc, 'cascade', None)
             return e
         if c == 'BoolBinopNode':
             return ('bin', n.operator, self.expr(n.operand1), self.expr(n.operand2))
         if c == 'CondExprNode':
-            return ('cond', self.expr(n.test), self.expr(n.true_val), self.expr(n.false_val))
+            return mk_cond(self.expr(n.test), self.expr(n.true_val), self.expr(n.false_val))
         if hasattr(n, 'operator') and hasattr(n, 'operand1') and hasattr(n, 'operand2'):
             return ('bin', n.operator, self.expr(n.operand1), self.expr(n.operand2))
         if c == 'LambdaNode':
@@ -353,7 +353,7 @@ class _Conv:
             clauses = n.if_clauses
             els = self.block(n.else_clause) if n.else_clause is not None else []
             for cl in reversed(clauses):
-                st = S('if', _line(cl) or line, cond=self.expr(cl.condition), then=self.block(cl.body), els=els)
+                st = mk_if(_line(cl) or line, self.expr(cl.condition), self.block(cl.body), els)
                 els = [st]
             return els
         if c == 'ForInStatNode':
